@@ -325,8 +325,14 @@ def _scalar_sampled(draw, tier, any_shape=False):
         c = -c if how == "neg-stored" else c
     else:
         c = draw(st.one_of(vs, st.sampled_from([-3.0, -1.0, 1.0, 3.0, 0.5, -0.5])))
-    ckind = draw(st.sampled_from(["float", "npfloat"] + (["int", "int"] if float(c).is_integer() else [])))
-    return dict(shape=list(shape), a=_draw_dtype(draw, a), c=float(c), ckind=ckind)
+    # a Python int scalar keeps the dtype of an integer array (NEP 50): it is only used where scalar and results fit
+    # (|c| <= 1000 for int32/int64 operands, |c| <= 10 for int8/uint8 ones); larger scalars are passed as floats
+    ckind = draw(st.sampled_from(["float", "npfloat"] + (
+        ["int", "int"] if float(c).is_integer() and abs(c) <= 1000 else [])))
+    a = _draw_dtype(draw, a)
+    if ckind == "int" and abs(c) > 10 and H.part_dtype(a) in ("int8", "uint8"):
+        ckind = "float"
+    return dict(shape=list(shape), a=a, c=float(c), ckind=ckind)
 
 
 @cell("C03/sp-sp/sampled", strategy=lambda tier: _pair_sampled(tier, True), quick=500, thorough=12000, shards=(4, 16))
